@@ -515,7 +515,9 @@ def recordLoop (length : Int) (depth : Nat) : Nat → Sub → P Sub
 def genbankParser (reg : Registry) : P (Record × Registry) := do
   let l ← locusParser
   clear
-  if l.length < 0 then fail            -- 9d67d52: "negative sequence length"
+  -- 9d67d52 / 184fdd0: "sequence length out of range": negative, or `toOriginLength(length)`
+  -- overflows Go's int (its true value is below 2^64, so the wrapped value is negative)
+  if l.length < 0 ∨ Origin.toOriginLength l.length > 9223372036854775807 then fail
   if !isMolecule l.molecule then fail
   match asTopology l.topology with
   | none => fail
